@@ -73,6 +73,8 @@ def handler : Handler := fun scn =>
   let contents := (arr scn "contents").map contentOf
   let tab := (arr scn "tab").map fun t => (⟨str t "comp", nat t "ci", str t "hash", str t "name"⟩ : TabRow)
   let H := mkNaming contents tab
+  -- the mirror of the ordering found in the tree under test (see harness c12Variant)
+  let recProg := if str scn "variant" == "unfixed" then reconcileD4 H else reconcile H
   let xrNames := (arr scn "xrs").map (str · "name")
   let comps := (arr scn "comps").filterMap fun c =>
     (contents[nat c "ci"]?).map fun ct => (⟨str c "name", nat c "uid", ct, false⟩ : Comp)
@@ -109,12 +111,12 @@ def handler : Handler := fun scn =>
           (envStep s (.putXR { x with policy := pol, selector := sel, ref := ref }), "", true, "")
         | none => (s, "", true, "")
       | "rec" =>
-        let (s1, r) := run sem (planOf e) 0 (reconcile H comp) s
+        let (s1, r) := run sem (planOf e) 0 (recProg comp) s
         let res := match r with
           | none => "crashed" | some .done => "ok" | some .created => "created" | some .requeue => "requeue" | some .err => "err"
         let good := !(res == "ok" || res == "created") || currentHighestB H s1 comp
         -- every intermediate store keeps the invariants
-        let inter := (reach sem (planOf e) 0 (reconcile H comp) s).all fun m => leB s m && leB m s1 && wfB m
+        let inter := (reach sem (planOf e) 0 (recProg comp) s).all fun m => leB s m && leB m s1 && wfB m
         (s1, res, good && inter, if good then "C12:model-intermediate" else "C12:model-current-not-highest")
       | "fetch" =>
         let (s1, r) := run sem (planOf e) 0 (fetch (str e "xr")) s
